@@ -139,6 +139,7 @@ def c04(ctx):
         D.r_count(ctx, prog, [3])
         D.r_complete(ctx, prog, [3])
         D.r_it_step3(ctx, prog)
+        K.r_globals(ctx, prog)        # the decoder is re-entered recursively: no state in function statics
         IT.r_symtab_writers(ctx, prog)
         IT.r_it_register(ctx, prog)
         IT.r_copy_scale(ctx, prog, ['of_it_decoding.c', 'of_ldpc_staircase_api.c', 'of_matrix_sparse.c'])
@@ -193,6 +194,7 @@ def _calls_source_callback(f):
 @prop('C11')
 def c11(ctx):
     for prog in programs(ctx):
+        I.r_dispatch(ctx, prog, MAIN3, ['of_set_callback_functions'])
         CB.r_cb(ctx, prog, MAIN3)
         CB.r_srcstore(ctx, prog, MAIN3)
         CB.r_srcptr(ctx, prog, MAIN3)
